@@ -67,7 +67,17 @@ def _bit(ctx, args, kwargs):
     n = _m_int_from_bytes(ctx, [word, "big"], {})
     if not is_sym(i) and not is_sym(n):
         return (n >> i) & 1
+    if is_sym(i) and is_sym(n) and n.bv is not None:
+        it = int_term(i)
+        if not ctx.branch(z3.And(it >= 0, it < n.bv.size())):
+            return 0
     ii = ctx.concretize_int(i, 70, "bit index")
+    if ii < 0:
+        return 0
+    if is_sym(n) and n.bv is not None and ii >= n.bv.size():
+        return 0
+    if not is_sym(n):
+        return (n >> ii) & 1
     if is_sym(n) and n.bv is not None:
         b = z3.Extract(ii, ii, n.bv)
         return SInt(z3.BV2Int(b), bv=b)
